@@ -441,7 +441,7 @@ def extract_item(block, unit, fired_total, clauses, meta_items, mode='verus'):
             m = re.match(r'^(\S+)\s+/(.*)/\s*=>\s*/(.*)/\s*(\{(\d+)(?:,(\d+))?\})?$', a, re.S)
             if not m:
                 raise GenError('template line %s: bad //@rw' % ln)
-            rule, pat, rep = m.group(1), m.group(2), m.group(3)
+            rule, pat, rep = m.group(1), m.group(2), m.group(3).replace('\\/', '/')
             cnt = [0]
 
             def f(mo):
@@ -576,8 +576,10 @@ def extract_item(block, unit, fired_total, clauses, meta_items, mode='verus'):
             clauses.append(cl)
             g.setdefault((w, n), []).append(cl)
         elif w == 'proof':
-            where, _, txt = a.partition(':')
-            proofs.append((list(cur_segs), where.strip(), txt.strip(), ln))
+            mm = re.match(r'^(bodystart|bodyend|tail|loopstart \d+|loopend \d+|(?:before|after) \d+ "[^"]*")\s*:\s*(.*)$', a, re.S)
+            if not mm:
+                raise GenError('template line %s: bad //@proof location' % ln)
+            proofs.append((list(cur_segs), mm.group(1).strip(), mm.group(2).strip(), ln))
         elif w == 'member':
             members.append((list(cur_segs), a, ln))
         elif w == 'attr':
@@ -651,6 +653,25 @@ def extract_item(block, unit, fired_total, clauses, meta_items, mode='verus'):
             add(tk[tgt.open_i].end, '\n' + tagged)
         elif wparts[0] == 'bodyend':
             add(tk[tgt.close_i].start, '\n' + tagged)
+        elif wparts[0] == 'tail':
+            # before the fn's tail expression (the last statement of the body)
+            k, depth, start = tgt.open_i + 1, 0, tgt.open_i + 1
+            while k < tgt.close_i:
+                t = tk[k]
+                if t.kind == 'punct':
+                    if t.text in '([{':
+                        depth += 1
+                    elif t.text in ')]}':
+                        depth -= 1
+                        if depth == 0 and t.text == '}' and k + 1 < tgt.close_i and tk[k + 1].text not in ('.', '?', 'else', ';', ')'):
+                            start = k + 1
+                    elif t.text == ';' and depth == 0 and k + 1 < tgt.close_i:
+                        start = k + 1
+                k += 1
+            ls = line_start(text, tk[start].start)
+            if text[ls:tk[start].start].strip():
+                raise GenError('tail expression not at line start (template line %s)' % ln)
+            add(ls, tagged)
         elif wparts[0] in ('loopstart', 'loopend'):
             loops = find_loops(tk, tgt.open_i + 1, tgt.close_i)
             n = int(wparts[1])
